@@ -21,18 +21,18 @@ CLAIMED.update({
    note="Trusted: the set algebra (engine_c::algebra + refint import sets), getrandom interposition as the only source of HashMap order. Inadmissible declarations are not generated."),
  "C13": dict(engine="library-world", category="exploration", ref="DESIGN.md 4.4",
    technique="deterministic simulation: seeded library worlds (files + registered sources + decoy working directory) and histories of imports, driver probes and program forms, checked against a reference module system",
-   text="Seeded worlds of 1-4 healthy libraries in a DAG with private state, private helpers, exports with and without rename; histories interleave import declarations (direct/prefix/only/rename) with driver-level calls of exported procedures and then program forms that redefine colliding names and call exported procedures. Every step is compared with a reference module system (one instance per library per interpreter); decoy libraries in the working directory must never be observed.",
+   text="Seeded worlds of 1-4 healthy libraries in a DAG with private state, private helpers, exports with and without rename; histories interleave import declarations (direct/prefix/only/rename) with driver-level calls of exported procedures and then program forms that redefine colliding names and call exported procedures. Libraries also re-export, export constants, rename exports onto internally bound names, import their dependencies through prefix/only/rename, keep a private macro or procedure of one common name, and one library has no import declaration at all. Every step is compared with a reference module system (one instance per library per interpreter); decoy libraries in the working directory must never be observed.",
    note="Trusted: reference module system in sim/src/refint.rs; libraries export procedures only. Fault-free configuration; faults are C14's."),
  "C14": dict(engine="library-world", category="fault_enumeration", ref="DESIGN.md 4.5",
    technique="deterministic simulation with fault injection: library health faults (missing, wrong name, faulting body, broken syntax, invalid UTF-8, directory, empty, truncated, dangling symlink), cycles and heal/break events injected into seeded import histories; oracle = graph analysis + fresh-interpreter run",
-   text="Seeded arbitrary import graphs with per-node health faults placed on reachable nodes, histories of 1-4 import attempts on one interpreter with heal/break events between them, decoy libraries in the working directory, program directory absolute or relative. Each attempt's outcome class must be one of the causes reachable in the graph as it is (Ok if none), must not panic, and is compared with the same import on a fresh real interpreter (history independence). Unbounded loader recursion is caught by a nesting limit in the verification hook, process death is caught through the worker journal.",
+   text="Seeded arbitrary import graphs with per-node health faults placed on reachable nodes, histories of 1-4 import attempts on one interpreter with heal/break events between them, decoy libraries in the working directory, program directory absolute or relative. Each attempt's outcome class must be one of the causes reachable in the graph as it is (Ok if none), must not panic, and is compared with the same import on a fresh real interpreter (history independence); cases with two or more reachable causes are executed again under a second hash-key seed and must report the same sequence (the outcome depends only on the graph). Unbounded loader recursion is caught by a nesting limit in the verification hook, process death is caught through the worker journal.",
    note="Trusted: reachability/cycle analysis in engine_b::analyse; byte damage is placed inside the define-library form. Which of several reachable causes is reported is left open; after heal/break events outcomes for any mixture of library versions are accepted."),
 })
 
 CLAIMED.update({
  "C19": dict(engine="isolation-sim", category="exploration", ref="DESIGN.md 4.9",
    technique="deterministic simulation: a seeded scheduler interleaves the forms of two programs over interpreter instances on one thread, with instance creation as a scheduled event; oracle = solo reference runs of the same real code on fresh threads",
-   text="Seeded program pairs with colliding names (store operations, fault transactions, define-syntax of the same keywords incl. redefinitions of when/unless/cond/let, same-named libraries with different contents, failing imports) interleaved uniformly, in bursts, or one after the other over two instances that live on one thread; 0-3 further instances are created at random points and must evaluate a fixed sanity program like an instance on a fresh thread. Every form's result must equal the result of the same program run alone.",
+   text="Seeded program pairs with colliding names (store operations, fault transactions, define-syntax of the same keywords incl. redefinitions of when/unless/cond/let, same-named libraries with different contents, failing imports) interleaved uniformly, in bursts, or one after the other over two or three instances that live on one thread (instances are created at first use and may be dropped after their last form; programs may run a small, often failing, file through eval_file); 0-3 further instances are created at random points and must evaluate a fixed sanity program like an instance on a fresh thread. Every form's result must equal the result of the same program run alone.",
    note="Trusted: structural observer; solo runs of the same build as reference (metamorphic, no expected values). Only the one-thread configuration is explored: instances on different threads share no state by construction."),
 })
 
@@ -43,14 +43,14 @@ CLAIMED.update({
    note="Trusted: marker model, ANSI stripping, the in-process run as rendering reference. Write errors on stdout and signals are not injected."),
  "C18": dict(engine="repl-sim", category="fault_enumeration", ref="DESIGN.md 4.8",
    technique="deterministic simulation of REPL sessions: a simulated user types generated lines into the real binary over a pipe in lock-step (FIONREAD + /proc/PID/syscall), several line splittings per sequence, EOF injected after a random line; oracle = nesting-depth judge + per-line output attribution + in-process transcript",
-   text="Sessions of 3-20 submissions typed under three different line splittings each (breaks only inside forms, blank/whitespace/comment-only lines, trailing comments with parentheses, literals containing parentheses and semicolons in a third of the cases), one line at a time, waiting after each line until the child has consumed it and blocks in read(0). After a line that completes nothing, nothing may be printed; after a completing line stderr must carry exactly the message and stdout everything up to the last newline; the final transcript equals the in-process evaluation of the submissions in order; transcripts agree across splittings; EOF after any line ends the session cleanly.",
-   note="Trusted: lock-step synchronisation through /proc (exit 2 if unreadable), the generator's depth count as completeness judge, in-process evaluation as transcript reference. Polling uses real sleeps only to wait; no outcome depends on timing."),
+   text="Sessions of 3-20 submissions typed under three different line splittings each (breaks only inside forms, blank/whitespace/comment-only lines, trailing comments with parentheses, literals containing parentheses and semicolons in a third of the cases), one line at a time, waiting after each line until the child has consumed it and blocks in read(0). After a line that completes nothing, nothing may be printed; after a completing line stderr must carry exactly the message and stdout everything up to the last newline; the final transcript equals the in-process evaluation of the forms one after another (each form by itself, only the last value of a submission shown); transcripts agree across splittings; EOF after any line ends the session cleanly and input whose lists never closed produces no output. Sessions include string literals typed across two lines, literals containing parentheses and semicolons, vector literals, and lines longer than a pipe buffer.",
+   note="Trusted: lock-step synchronisation through /proc (exit 2 if unreadable), the generator's depth count as completeness judge, in-process evaluation of single forms as transcript reference; banner and farewell are learned from an empty session of the same binary. Polling uses real sleeps only to wait; no outcome depends on timing."),
 })
 
 CLAIMED.update({
  "C07": dict(engine="damage-sim", category="fault_enumeration", ref="DESIGN.md 4.6",
    technique="deterministic simulation with storage-fault injection: valid program and library files are damaged (truncation, bit flips, zeroed/duplicated/transposed sectors, stale tail, BOM, dropped/inserted bytes, directory/empty/dangling in place of a file) and then used on a fresh interpreter under an evaluation budget; oracle = returns, never panics, interpreter still usable",
-   text="The storage-fault slice of C07: the interpreter is a reader of files it does not control. Seeded worlds of valid sources (repository examples, bundled library texts used as user files, programs and library worlds rendered from engines A and B) receive 1-3 storage faults and are used through eval_file / import (or eval of the lossily decoded text); the call must return Ok or Err without panicking, and four sanity forms must then evaluate on the same interpreter. Budget exhaustion, stack and memory exhaustion are counted and discarded as the property says.",
+   text="The storage-fault slice of C07: the interpreter is a reader of files it does not control. Seeded worlds of valid sources (repository examples, bundled library texts used as user files, programs and library worlds rendered from engines A and B) receive 1-3 storage faults and are used through eval_file / import (or eval of the lossily decoded text); the call must return Ok or Err without panicking, and sanity forms (plus a further import when the failure struck while the program was still importing) must then evaluate on the same interpreter; a quarter of the runs hand the damaged world to the real ruschm binary instead, which must end with a diagnostic and not with a panic. Budget exhaustion, timeouts, stack and memory exhaustion are counted and discarded as the property says.",
    note="Only the part of C07 that mentions files with faults is decided. The clause over all character sequences as such (exhaustive short strings, token soup) is input enumeration with nothing to schedule or inject; it is not emulated. Trusted: panic hook + catch_unwind, budget hooks, worker journal for process deaths."),
 })
 
